@@ -154,6 +154,7 @@ def _keep_all_propagate_recursive(case, failure):
 
 
 KNOWN_CLASSES = {
+    "cyclic_or_complement": lambda case, failure: gp.cyclic_body_disjunction_with_complement(case["prog"]),
     "keep_all_propagate_recursive": _keep_all_propagate_recursive,
     "always": lambda case, failure: True,
     "negcycle_fp": lambda case, failure: gp.neg_on_cyclic_goal_under_active_cycle(case["prog"]),
